@@ -869,9 +869,10 @@ func (m *Mint) MeltTokens(ctx context.Context, meltTokensRequest nut05.PostMeltB
 	}
 
 	// before asking backend to send payment, check if quotes can be settled
-	// internally (i.e mint and melt quotes exist with the same invoice)
+	// internally (i.e mint and melt quotes exist with the same invoice).
+	// A partial (mpp) amount never settles the mint quote.
 	mintQuote, err := m.db.GetMintQuoteByPaymentHash(meltQuote.PaymentHash)
-	if err == nil && strings.EqualFold(mintQuote.PaymentRequest, meltQuote.InvoiceRequest) {
+	if err == nil && !meltQuote.IsMpp && strings.EqualFold(mintQuote.PaymentRequest, meltQuote.InvoiceRequest) {
 		m.logDebugf("quotes '%v' and '%v' have same invoice so settling them internally", meltQuote.Id, mintQuote.Id)
 		settledQuote, err := m.settleQuotesInternally(mintQuote, meltQuote)
 		if err != nil {
